@@ -148,6 +148,21 @@ CHECKS['C17'] = (
     'np.random.choice is the only randomness; time types int64/float64/uint64.',
     'DESIGN.md section 6 C17')
 
+CHECKS['C04'] = (
+    'deviation-bounded exhaustive enumeration of dataset layouts (space mode): default + every '
+    'configuration within k deviations over 24 option axes, each generated on disk, loaded with the '
+    'real load_model and compared with the generator\'s ground truth',
+    'Bounded exhaustive exploration: a dataset generator with independent ground truth writes every '
+    'configuration at Hamming distance <= 3 (4 thorough) from the default over 24 axes (KS/ALF names, '
+    '(n,)/(n,1) vectors, presence of each optional file, dense/sparse templates, id/time dtypes, raw '
+    'file layout, channel map, spike attributes, NaN/inf content, non-monotonic times, sample rate): '
+    '10 512 datasets quick. Every public attribute is compared value-by-value, defaults included, the '
+    'directory is hashed before and after, and a reload after derived files were created is compared '
+    'too. A failure is attributed to the smallest sub-configuration showing it.',
+    '>= 2 spikes/templates/channels per dataset; memory-mapped arrays exempt at NaN positions; values '
+    'from seeded patterns, not arbitrary reals.',
+    'DESIGN.md section 6 C04')
+
 NOT_YET = {}
 
 ALL = ['C%02d' % i for i in range(1, 21)]
